@@ -197,7 +197,8 @@ Inductive packet :=
 | PSig (s : sig)
 | PTrust
 | POpaque (sigtag : bool) (id : Z)       (* an Opaque packet; sigtag = it carries the Signature tag (else: a subkey of unknown version, or another tag) *)
-| POpaqueKey (id : Z).                   (* an Opaque packet with the PublicKey / SecretKey tag: a PRIMARY key of unknown version *)
+| POpaqueKey (id : Z)                    (* an Opaque packet with the PublicKey / SecretKey tag: a PRIMARY key of unknown version *)
+| PStray (id : Z).                       (* an understood packet that is no part of a key (a Marker packet, a literal ...): "orphaned packet" *)
 
 Definition export_sigs (l : list sig) : list packet :=
   flat_map (fun s => if exportable (s_core s) then [PSig s] else []) l.
@@ -291,30 +292,13 @@ Fixpoint drop_skipped (skipping : bool) (gs : list (packet * list packet)) : lis
     match h with
     | POpaqueKey _ => drop_skipped true r
     | POpaque _ _ => drop_skipped skipping r
+    | PStray _ => drop_skipped skipping r      (* set aside with the signatures grouped with it (`orphaned`), whether skipping or not *)
     | PKey true _ _ _ => (h, ss) :: drop_skipped false r
     | _ => if skipping then drop_skipped true r else (h, ss) :: drop_skipped false r
     end
   end.
 
-(* Signatures before the first non-signature packet (grouping key None).  When the first of them is an Opaque packet the group is
-   passed over.  Otherwise the loop leaves through `else: break`: "Orphaned packet" warning, the rest of the group is consumed - at
-   which point itertools.groupby has already read the FIRST PACKET OF THE NEXT GROUP, and the `while True` starts a new groupby (and
-   a new grouper, last = None) over the same iterator: that packet is lost, and the signatures after it are again leading
-   signatures.  strip_orphans is what is left for the group loop *)
-Fixpoint drop_sigs (ps : list packet) : list packet :=
-  match ps with
-  | p :: r => if is_sigpkt p then drop_sigs r else ps
-  | [] => []
-  end.
-Fixpoint strip_orphans (fuel : nat) (ps : list packet) : list packet :=
-  match fuel with
-  | O => []
-  | S f =>
-    match ps with
-    | PSig _ :: _ => match drop_sigs ps with [] => [] | _ :: r => strip_orphans f r end
-    | _ => ps
-    end
-  end.
+Inductive parse_rule := RuleNow | RulePreOrphan | RulePreBf7.
 
 Section Import.
   (* the three attachment operations, so that the pre-repair code can be run through the same parser *)
@@ -339,6 +323,7 @@ Section Import.
       end in
     match h with
     | POpaque _ _ | POpaqueKey _ => Ok st      (* `if isinstance(pkt, Opaque): ... continue` (what else an opaque primary key does: drop_skipped) *)
+    | PStray _ => Ok st                        (* `orphaned.append(pkt); orphaned.extend(group); continue` *)
     | PKey prim pub cs l =>
       let its := fold_left kos sl [] in
       if prim then Ok (keys_set {| p_label := l; p_public := pub; p_sigs := its; p_uids := []; p_subs := [] |} ks, Some (l, pub))
@@ -361,40 +346,92 @@ Section Import.
                 end
     end.
 
-  (* pre_bf7 = the code before repair bf7dbf5: signatures before the first non-signature packet raise (AttributeError), and an opaque
-     primary key packet is skipped like any other opaque packet - what follows it is given to the key parsed before it.
-     Now: leading signatures are orphaned packets (strip_orphans; a leading group that starts with an opaque signature is just passed
-     over), and the groups after an opaque primary key packet up to the next understood primary key packet are skipped (drop_skipped) *)
-  Variable pre_bf7 : bool.
+  (* The parse before the orphan repair (HEAD f2ab7da), on the leading signatures `lead` and the groups `gs` still to come.  A packet
+     that is no part of a key - a stray packet, or a REAL signature at the head of the leading group (grouping key None; an opaque
+     one there is just passed over) - took `else: break`: "Orphaned packet" warning, the rest of its group consumed - at which point
+     itertools.groupby has already read the FIRST PACKET OF THE NEXT GROUP - and the `while True` started a new groupby (and a new
+     grouper, last = None) over the same iterator: that packet is LOST, the signatures after it are leading signatures again; keys,
+     primary and skipping live on.  (A stray packet met while skipping is passed over by `if skipping: continue` before that.) *)
+  Fixpoint import_groups_orphan (fuel : nat) (lead : list packet) (gs : list (packet * list packet))
+                                (st : list key * option (Z * bool)) (skipping : bool) : result (list key) :=
+    match fuel with
+    | O => Ok (fst st)
+    | S f =>
+      match lead with
+      | PSig _ :: _ =>
+        match gs with
+        | [] => Ok (fst st)
+        | (_, ss) :: r => import_groups_orphan f ss r st skipping          (* the head of the next group is lost *)
+        end
+      | _ =>
+        match gs with
+        | [] => Ok (fst st)
+        | (h, ss) :: r =>
+          match h with
+          | POpaqueKey _ => import_groups_orphan f [] r st true
+          | POpaque _ _ => import_groups_orphan f [] r st skipping
+          | _ =>
+            let skipping' := match h with PKey true _ _ _ => false | _ => skipping end in
+            if skipping' then import_groups_orphan f [] r st skipping'
+            else match h with
+                 | PStray _ =>
+                   match r with
+                   | [] => Ok (fst st)
+                   | (_, ss2) :: r2 => import_groups_orphan f ss2 r2 st skipping'     (* the head of the next group is lost *)
+                   end
+                 | _ =>
+                   match import_group st (h, ss) with
+                   | Ok st' => import_groups_orphan f [] r st' skipping'
+                   | ErrLeadingSignature => ErrLeadingSignature
+                   | ErrNoPrimary => ErrNoPrimary
+                   | ErrTypeError => ErrTypeError
+                   end
+                 end
+          end
+        end
+      end
+    end.
+
+  (* which PGPKey.parse:
+     RuleNow         after the orphan repair: what is no part of a key - leading signatures, a stray packet with the signatures grouped
+                     with it - is set aside and the loop goes on (`continue`): nothing else is dropped; the groups after an opaque primary
+                     key packet up to the next understood primary key packet are skipped (drop_skipped);
+     RulePreOrphan   HEAD before that repair: import_groups_orphan;
+     RulePreBf7      before repair bf7dbf5: leading signatures raise (AttributeError), an opaque primary key packet is skipped like any
+                     other opaque packet and what follows it is given to the key parsed before it (used on blobs without stray packets) *)
+  Variable rule : parse_rule.
   Definition import_with (ps : list packet) : result (list key) :=
-    if pre_bf7 then
-      let (lead, gs) := groups (filter not_trust ps) in
+    let (lead, gs) := groups (filter not_trust ps) in
+    match rule with
+    | RuleNow => import_groups (drop_skipped false gs) ([], None)
+    | RulePreOrphan => import_groups_orphan (S (length gs)) lead gs ([], None) false
+    | RulePreBf7 =>
       match lead with
       | [] => import_groups gs ([], None)
       | _ :: _ => ErrLeadingSignature
       end
-    else
-      let ps' := filter not_trust ps in
-      import_groups (drop_skipped false (snd (groups (strip_orphans (S (length ps')) ps')))) ([], None).
+    end.
 End Import.
 
 (* PGPKey.parse as it is now; the returned list is the `keys` dictionary in order (its first element is the
    object from_blob returns as the key) *)
-Definition import : list packet -> result (list key) := import_with key_or_sig uid_or_sig key_or_uid (fun s => s) upd_cur false.
+Definition import : list packet -> result (list key) := import_with key_or_sig uid_or_sig key_or_uid (fun s => s) upd_cur RuleNow.
+(* before the orphan repair (HEAD f2ab7da) *)
+Definition import_pre_orphanfix : list packet -> result (list key) := import_with key_or_sig uid_or_sig key_or_uid (fun s => s) upd_cur RulePreOrphan.
 (* before repair bf7dbf5 *)
-Definition import_pre_bf7 : list packet -> result (list key) := import_with key_or_sig uid_or_sig key_or_uid (fun s => s) upd_cur true.
+Definition import_pre_bf7 : list packet -> result (list key) := import_with key_or_sig uid_or_sig key_or_uid (fun s => s) upd_cur RulePreBf7.
 
 (* before repair 84a9ce0 *)
 Definition import_prefix_dup : list packet -> result (list key) :=
-  import_with key_or_sig uid_or_sig key_or_uid (fun s => s) (fun _ => upd_last) false.
+  import_with key_or_sig uid_or_sig key_or_uid (fun s => s) (fun _ => upd_last) RuleNow.
 
 (* before repair 812bc0f: identities ordered through selfsig_old *)
 Definition import_old_selfsig : list packet -> result (list key) :=
-  import_with key_or_sig uid_or_sig key_or_uid_old (fun s => s) upd_cur false.
+  import_with key_or_sig uid_or_sig key_or_uid_old (fun s => s) upd_cur RuleNow.
 
 (* before the F9 repair *)
 Definition import_prefix_f9 : list packet -> result (list key) :=
-  import_with key_or_sig_prefix uid_or_sig_prefix key_or_uid_prefix (fun s => s) upd_cur false.
+  import_with key_or_sig_prefix uid_or_sig_prefix key_or_uid_prefix (fun s => s) upd_cur RuleNow.
 
 (* before the F2 repair: a parsed Boolean subpacket lost its value (an explicit exportable=True read back as False) *)
 Definition psig_prefix_f2 (s : sig) : sig :=
@@ -404,7 +441,7 @@ Definition psig_prefix_f2 (s : sig) : sig :=
                   c_primary := c_primary c; c_info := c_info c; c_signer := c_signer c; c_digest := c_digest c |};
      s_emb := s_emb s |}.
 Definition import_prefix_f2 : list packet -> result (list key) :=
-  import_with key_or_sig uid_or_sig key_or_uid psig_prefix_f2 upd_cur false.
+  import_with key_or_sig uid_or_sig key_or_uid psig_prefix_f2 upd_cur RuleNow.
 
 (* ---------- copy, public twin, and what both have in common ---------- *)
 (* PGPUID.__copy__ *)
